@@ -80,12 +80,20 @@ ARCH = [
     # 16 / 17: the same long texts at 8.5 pt (one line each, one page) and at 9 pt (two lines each, two pages): measurement caches
     {"kind": "table", "page": {"nrow": 8}, "sections": [{"df": _wide(6), "body": {"text_font_size": 8.5}, "headers": [{"text": ["@H0.0", "@H0.1"]}]}]},
     {"kind": "table", "page": {"nrow": 8}, "sections": [{"df": _wide(6), "body": {"text_font_size": 9}, "headers": [{"text": ["@H0.0", "@H0.1"]}]}]},
+    # 19: alias colour names (one RGB value, several names) far apart in the master table with another colour between them
+    {"kind": "table", "sections": [{"df": _t(3, 2), "body": {"text_color": ["gray", "grey", "green"], "text_background_color": ["gray100", "white", "gray50"]},
+                                    "headers": "default"}], "title": {"text": ["@T0"], "text_color": "blue1"}, "footnote": {"text": ["@F0"], "text_color": "blue"}},
+    # 20: multi-section whose second section uses subline_by (pagination forced inside the section), with a title
+    {"kind": "multi", "header_layout": "nested",
+     "sections": [{"df": _t(2, 2), "body": {}, "headers": "default"},
+                  {"df": _g(["@B0:v0"] * 2 + ["@B0:v1"] * 2), "body": {"subline_by": ["@N0"], "col_rel_width": [1, 1, 1]}, "headers": "default"}],
+     "title": {"text": ["@T0"]}},
     # 18: per-column border vector and one data row per page: in-place border updates would alias the caller's matrix
     {"kind": "table", "page": {"nrow": 2}, "sections": [{"df": _t(2, 3, "b"), "body": {"border_bottom": ["single", "dashed"], "border_top": ["", "dotted"]},
                                                         "headers": [{"text": ["@H0.0", "@H0.1"]}]}]},
 ]
 RAISES = {6}
-PLAIN_BODY = {0, 9, 12, 10, 15, 18}         # single tables whose body/header specs reference no columns
+PLAIN_BODY = {0, 9, 12, 10, 15, 20}         # single tables whose body/header specs reference no columns
 SHARE_SETS = [["page"], ["body"], ["footnote"], ["title"], ["header"], ["page", "footnote", "source", "title"], ["body", "header"]]
 COMPONENT_ARG = {"page": "rtf_page", "title": "rtf_title", "footnote": "rtf_footnote", "source": "rtf_source"}
 
